@@ -65,6 +65,10 @@ def class_specs() -> Tuple[List[dict], Dict[str, int], List[int]]:
     for L in range(1, 4):
         add(f"VM_SA_{L}", "data", [["g0", ["Uint8"]], ["st", ["Struct", 0]], ["sa", ["StructArray", 0, L]],
                                    ["sb", ["StructArray", 1, L]], ["nest", ["Struct", 2]], ["g1", ["Uint8"]]])
+    # Char leaves at top level, in a nested struct and in a struct-array element (refused-assignment atomicity)
+    add("VS_C", "struct", [["ch", ["Char"]], ["n", ["Int8"]]])
+    add("VM_CH", "data", [["g0", ["Uint8"]], ["c", ["Char"]], ["st", ["Struct", idx["VS_C"]]],
+                          ["sa", ["StructArray", idx["VS_C"], 2]], ["g1", ["Uint8"]]])
     # the same kinds through the real definition compiler (parser + PyDefCompiler + import)
     add("VC_S", "struct", [["a", ["Int8"]], ["b", ["Int16"]]], compiled=True)
     add("VC_MSG", "data", [["i8", ["Int8"]], ["u16", ["Uint16"]], ["i64", ["Int64"]], ["f", ["Float"]],
@@ -253,8 +257,24 @@ def gen_ops(L: Layouts, idx: Dict[str, int], rng: random.Random, tier: str) -> L
     sfields = [k.lower() for k in INT_KINDS] + ["f", "d", "c", "by", "s2", "s5"]
     for fn in sfields:
         for v in svals:
-            op("VM_SCALARS", fn, v, tag="scalar")
+            # every (kind, value) on an all-0x11 image (no byte is NUL: a refused assignment that clears or
+            # rewrites anything shows in bytes(msg)) and on a random image
+            op("VM_SCALARS", fn, v, tag="scalar", mode=1)
+            op("VM_SCALARS", fn, v, tag="scalar", mode=2)
             op("VM_SCALARS", fn, v, enabled=False, tag="scalar-off")
+    # Char fields holding a non-NUL value, refused and accepted values, at every nesting
+    cvals = [V_str(""), V_str("ab"), V_str("abc"), V_str("é"), V_str("\x80"), V_int(5), V_none(), V_bytes(b""), V_bytes(b"a"),
+             V_float(1.0), V_bool(True), V_list([V_str("a")]), V_list([]), V_cinst("Uint8", [65]), V_cinst("Int8", [65]),
+             V_carr("Char", 1, [65]), V_str("a"), V_str("\x00"), V_str("\x7f"), V_cinst("Char", [66])]
+    sC = idx["VS_C"]
+    for v in cvals:
+        for mode in (1, 2):
+            op("VM_CH", "c", v, tag="char-atomic", mode=mode)
+            op("VM_CH", "ch", v, path=[["st"]], tag="char-atomic", mode=mode, leafcls=sC)
+            op("VM_CH", "ch", v, path=[["sa", 0]], tag="char-atomic", mode=mode, leafcls=sC)
+            op("VM_CH", "ch", v, path=[["sa", 1]], tag="char-atomic", mode=mode, leafcls=sC)
+        op("VM_CH", "c", v, tag="char-atomic-off", mode=1, enabled=False)
+        op("VM_CH", "ch", v, path=[["sa", 1]], tag="char-atomic-off", mode=1, enabled=False, leafcls=sC)
     for fn, v in [("int8", V_int(1)), ("s5", V_str("a"))]:
         op("VM_SCALARS", fn, v, key=["i", 0], tag="scalar-key", mode=0)   # zero image: the getter must not fail first
     # --- histories on one string field are exercised by C10; here: every prefix length of String(5)
